@@ -341,6 +341,13 @@ func gen(tier string, rng *h.Rng, emit0 func(string)) {
 		}
 		emit("disp " + strings.Join(evs, ";"))
 	}
+	// the connection tables of a real node: the dialled endpoint announces the dialled id / another id /
+	// the node's own id / none / hangs up during the handshake; duplicate inbound connection; inbound
+	// hang-up during the handshake; then a round trip to that member must succeed
+	hon("conn match")
+	for _, kk := range []string{"other", "own", "empty", "none", "in2", "inclose"} {
+		emit("conn " + kk)
+	}
 	for _, m := range []string{"nil", "sub", "unsub"} {
 		emit("mdisp " + m)
 	}
